@@ -20,7 +20,7 @@ PROP = dict(
 META = dict(
     text=("Lean theorems about the mirror of determineBlockEncryption/AddDelta for every creation configuration and every history of updates, deletes and merges of concurrent unencrypted heads: under document-level "
           "encryption every field block the author writes links a key (also fields first set by a later update: inherited from the composite); a field encrypted at creation stays encrypted in every later block; "
-          "a key-less receiver stores only values of clear blocks; a receiver holding some keys stores only values of blocks that are clear or under a key it holds (a value under a key it lacks is never stored), more keys never lose a value, and a holder of every linked key stores the value of every field block; decrypting with the linked key returns the written value. The full field-level statement is refuted in the model by a concrete history "
+          "a key-less receiver stores only values of clear blocks and, of a document-level encrypted document, cannot read any composite the author wrote (the document is invisible there: the `doc=` value of the `recv nokey` line); a receiver holding some keys stores only values of blocks that are clear or under a key it holds (a value under a key it lacks is never stored), more keys never lose a value, and a holder of every linked key stores the value of every field block; decrypting with the linked key returns the written value. The full field-level statement is refuted in the model by a concrete history "
           "(field named for encryption but first written by an update), which is the known finding on the implementation. Tied to /repo by classifying every produced block and by searching every stored byte and "
           "notification for every written pattern."),
     design_ref="DESIGN.md section 8, C11",
